@@ -167,6 +167,9 @@ func (g *gen) part(richness, pInvalid int, allowBad bool) *Part {
 	if g.pct(richness / 3) {
 		p.Held = sp(fmt.Sprintf("held%d", n))
 	}
+	if g.pct(richness / 8) {
+		p.Chain = g.in(40, 70)
+	}
 	if g.pct(richness) {
 		p.NestS = sp(fmt.Sprintf("ns%d", n))
 	}
@@ -398,6 +401,13 @@ func genCore(prop string, seed uint64, faulty bool) *Scenario {
 	}
 	if nWatch+nStatic == 0 {
 		nStatic = 1
+	}
+	if g.pct(3) {
+		// no source at all: the stack is the defaults alone, which need not verify
+		nWatch, nStatic = 0, 0
+		if g.pct(50) {
+			sc.Defaults.Lo, sc.Defaults.Hi = ip(7), ip(3)
+		}
 	}
 	kinds := make([]string, 0, 4)
 	for i := 0; i < nWatch; i++ {
